@@ -32,25 +32,44 @@ def one(job):
         if p.returncode:
             return owner, rk, "patch-failed", {}
         env = dict(os.environ, PYTHONPATH=os.path.join(tmp, "src"), PYTHONDONTWRITEBYTECODE="1")
-        t = subprocess.run([PY, "-m", "pytest", "-q", "-p", "no:cacheprovider", "-x"], cwd=tmp, env=env, capture_output=True, text=True)
-        last = (t.stdout.strip().splitlines() or [""])[-1]
-        if t.returncode != 0 or "276 passed" not in last:
-            return owner, rk, f"suite: {last}", {}
+        import hashlib
+
+        key = hashlib.sha256(open(patch, "rb").read() + HEAD.encode()).hexdigest()
+        marker = os.path.join("/tmp", "rf-suite-ok", key)
+        if not os.path.exists(marker):
+            t = subprocess.run([PY, "-m", "pytest", "-q", "-p", "no:cacheprovider", "-x"], cwd=tmp, env=env, capture_output=True, text=True)
+            last = (t.stdout.strip().splitlines() or [""])[-1]
+            if t.returncode != 0 or "276 passed" not in last:
+                return owner, rk, f"suite: {last}", {}
+            os.makedirs(os.path.dirname(marker), exist_ok=True)
+            open(marker, "w").close()
         res = {}
-        for pid in pids():
+        for pid in (CHECKS or pids()):
             e2 = dict(os.environ, VERIF_REPLAY_DIR=os.path.join(tmp, "_replay"))
             c = subprocess.run([sys.executable, os.path.join(VERIF, "check"), pid, "--repo", tmp], capture_output=True, text=True, env=e2, cwd=VERIF)
             if c.returncode != 0:
                 lines = [l for l in c.stdout.splitlines() if "[C" in l or l.startswith("ANALYSIS") or l.startswith("    ")]
-                res[pid] = (c.returncode, lines[:4])
+                res[pid] = (c.returncode, lines[: (40 if VERBOSE else 4)])
         return owner, rk, "ok", res
     finally:
         shutil.rmtree(tmp, ignore_errors=True)
 
 
+HEAD = subprocess.check_output(["git", "-C", REPO, "rev-parse", "HEAD"], text=True).strip()
+CHECKS = []
+VERBOSE = False
+ONLY = []
+
+
 def main():
+    global CHECKS, VERBOSE, ONLY
     root = sys.argv[1]
     keep = "--keep" in sys.argv
+    VERBOSE = "-v" in sys.argv
+    if "--checks" in sys.argv:
+        CHECKS = sys.argv[sys.argv.index("--checks") + 1].split(",")
+    if "--only" in sys.argv:
+        ONLY = sys.argv[sys.argv.index("--only") + 1].split(",")
     jobs = []
     for owner in sorted(os.listdir(root)):
         out = os.path.join(root, owner, "_out")
@@ -58,7 +77,7 @@ def main():
             continue
         for rk in sorted(os.listdir(out)):
             p = os.path.join(out, rk, "patch.diff")
-            if os.path.isfile(p) and os.path.getsize(p) > 0:
+            if os.path.isfile(p) and os.path.getsize(p) > 0 and (not ONLY or f"{owner}-{rk}" in ONLY or owner in ONLY):
                 jobs.append((owner, rk, p))
     with cf.ThreadPoolExecutor(max_workers=12) as ex:
         results = list(ex.map(one, jobs))
